@@ -23,12 +23,13 @@ TECHNIQUE = 'bounded-exhaustive strings over the invertible alphabet x configura
 PROTS = ['braces', 'braces-all', 'braces-almost-all', 'braces-after-macro']
 L2T = [dict(), dict(strict_latex_spaces=True)]
 NEIGHBOURS = ['a', '1', ' ', '\n', '.', '{', 'é', 'ø', ' ', '\\', '%', '́']
-REPS = ['a', 'B', '1', ' ', '\n', '.', '{', '}', 'é', 'ø', ' ', '\\', '%', '́', 'α']
+REPS = ['a', 'B', '1', ' ', '\n', '.', '{', '}', 'é', 'ø', ' ', '\\', '%', '́', 'α', 'ñ']
 LIGATURES = ['--', '``', "''", '!`', '?`', '<<', '>>', ',,']
 BOUNDS = {'quick': dict(N=3, pairs=False), 'thorough': dict(N=3, pairs=True)}
 
 _ALPHA = None
 _OBJ = {}
+_LOG = {}          # (prot, li) -> strings converted so far by the shared object of this worker
 
 
 def alphabet():
@@ -48,9 +49,33 @@ def objs(prot, li):
     if key not in _OBJ:
         from pylatexenc.latexencode import UnicodeToLatexEncoder
         from pylatexenc.latex2text import LatexNodes2Text
-        _OBJ[key] = (UnicodeToLatexEncoder(replacement_latex_protection=prot, unknown_char_warning=False),
-                     LatexNodes2Text(**L2T[li]))
+        _OBJ[key] = fresh_objs(prot, li)
+        _LOG[key] = []
     return _OBJ[key]
+
+
+def fresh_objs(prot, li):
+    from pylatexenc.latexencode import UnicodeToLatexEncoder
+    from pylatexenc.latex2text import LatexNodes2Text
+    return (UnicodeToLatexEncoder(replacement_latex_protection=prot, unknown_char_warning=False), LatexNodes2Text(**L2T[li]))
+
+
+def roundtrip(pair, s):
+    enc, l2t = pair
+    st, res = run_guarded(lambda: l2t.latex_to_text(enc.unicode_to_latex(s), tolerant_parsing=False))
+    return (st, res if st == 'ok' else (type(res).__name__ if st == 'exc' else None))
+
+
+def find_history(prot, li, s, exp):
+    """The shared objects fail on s although fresh ones do not: search the call log for the shortest prefix
+    history (one earlier call, else two) after which fresh objects fail as well."""
+    log = list(dict.fromkeys(_LOG[(prot, li)]))
+    for p in log[:4000]:
+        pair = fresh_objs(prot, li)
+        roundtrip(pair, p)
+        if roundtrip(pair, s) != ('ok', exp):
+            return [p]
+    return None
 
 
 def admissible(s):
@@ -79,7 +104,7 @@ def _bad():
     return _BAD
 
 
-def check(s, acc, sub, cfgs=None):
+def check(s, acc, sub, cfgs=None, history=None):
     exp = unicodedata.normalize('NFC', s)
     for prot in PROTS:
         for li in range(len(L2T)):
@@ -88,7 +113,20 @@ def check(s, acc, sub, cfgs=None):
             enc, l2t = objs(prot, li)
             acc.count('evaluations')
             st, res = run_guarded(lambda: l2t.latex_to_text(enc.unicode_to_latex(s), tolerant_parsing=False))
+            _LOG[(prot, li)].append(s)
             case = dict(s=s, protection=prot, l2t=li)
+            if history is not None:
+                case['history'] = history
+            elif (st != 'ok' or res != exp) and roundtrip(fresh_objs(prot, li), s) == ('ok', exp):
+                # the long-lived objects of this worker fail where fresh ones succeed: state carried between calls
+                h = find_history(prot, li, s, exp)
+                acc.count('state_dependent_failures')
+                acc.violation(ID, 'history', dict(case, history=h if h is not None else _LOG[(prot, li)][-300:-1]),
+                              dict(kind='round-trip-depends-on-earlier-calls', protection=prot, minimal_history_found=h is not None),
+                              observed=repr(res)[:200], expected=repr(exp))
+                _OBJ[(prot, li)] = fresh_objs(prot, li)
+                _LOG[(prot, li)] = []
+                continue
             if st != 'ok':
                 acc.violation(ID, sub, case, dict(kind='round-trip-raises' if st == 'exc' else 'hang',
                                                   exc=type(res).__name__ if st == 'exc' else None,
@@ -162,6 +200,16 @@ def run_shard(shard, tier, acc):
 
 def replay(sub, case):
     acc = engine.Acc()
+    if case.get('history') is not None:
+        # fresh objects (fresh interpreter), the recorded earlier calls, then the case
+        enc, l2t = objs(case['protection'], case['l2t'])
+        for p in case['history']:
+            roundtrip((enc, l2t), p)
+        check(case['s'], acc, sub, [(case['protection'], case['l2t'])], history=case['history'])
+        for v in acc.violations:
+            v['signature'] = dict(kind='round-trip-depends-on-earlier-calls', protection=case['protection'],
+                                  minimal_history_found=len(case['history']) == 1)
+        return acc.violations
     check(case['s'], acc, sub, [(case['protection'], case['l2t'])])
     return acc.violations
 
